@@ -55,7 +55,15 @@ TVDone == /\ IsEvent("vdone") /\ fam = "value"
           /\ (~HasPh(cur[1]) /\ ~KnownNotToRoundTrip(cur[1])) => (Rec[l].parsed /\ Rec[l].equivalent)
           /\ UNCHANGED <<fam, cur>>
 
-TNext == TReset \/ TParsed \/ TPrinted \/ TDone \/ TVPrinted \/ TVDone
+\* C06 histories are C02 histories of a text written with one name in several places, plus
+\*   named {name, written, got}   got: the names of the parsed program equal to `name` up to letter case
+\* verdict: each written occurrence arrives, and arrives byte-for-byte
+TNamed == /\ IsEvent("named") /\ fam = "text"
+          /\ Len(Rec[l].got) = Rec[l].written
+          /\ \A n \in DOMAIN Rec[l].got : Rec[l].got[n] = Rec[l].name
+          /\ UNCHANGED <<fam, cur>>
+
+TNext == TReset \/ TParsed \/ TPrinted \/ TDone \/ TVPrinted \/ TVDone \/ TNamed
 TSpec == TInit /\ [][TNext]_tvars
 
 Accepted == LET n == TLCGet("stats").diameter - 1 IN
